@@ -45,7 +45,9 @@ let dispatch (f : string array) : string option =
   | "hist" ->
       (* hist <mode> <envspec> <op>... *)
       let ops = Array.to_list (Array.sub f 3 (Array.length f - 3)) in
-      Some (Memdrv.run_hist (parse_env f.(2)) ops)
+      let two = String.length f.(1) > 0 && f.(1).[String.length f.(1) - 1] = '2' in
+      if f.(1) = "h" then Some (Memdrv.run_hhist (parse_env f.(2)) ops)
+      else Some (Memdrv.run_hist ~two (parse_env f.(2)) ops)
   | "wfcheck" ->
       (* wfcheck <snapshot>: the extracted WF checker on a state snapshot (of the implementation) *)
       Some (try out_bool (api_wf_b (Memdrv.parse_snapshot f.(1))) with _ -> "B:0")
